@@ -634,10 +634,16 @@ func (w *c11World) leftovers(includeTombs bool) string {
 }
 
 func c11Poll(max time.Duration, f func() string) string {
-	deadline := time.Now().Add(max)
+	start := time.Now()
+	deadline := start.Add(max)
 	for {
 		msg := f()
 		if msg == "" || time.Now().After(deadline) {
+			return msg
+		}
+		// records of the known finding c11:inbound-expired-record-kept never go away while the
+		// connection lives: no need to wait the full period once nothing else is left
+		if strings.HasPrefix(msg, "[c11:inbound-expired-record-kept]") && time.Since(start) > 500*time.Millisecond {
 			return msg
 		}
 		time.Sleep(5 * time.Millisecond)
@@ -852,6 +858,97 @@ func c11ScriptedWorld(kind int, sites *c11Sites) *c11World {
 	return w
 }
 
+// a plain world without random options
+func c11BasicWorld(name string, relayTimeout time.Duration, sites *c11Sites) *c11World {
+	w := &c11World{name: name, socks: &c11Sockets{}, conns: map[*tchannel.Connection]*tchannel.Channel{}, sites: sites}
+	w.baseline = c11Baseline()
+	mk := func(svc string, opts *tchannel.ChannelOptions, listen bool, role string) *tchannel.Channel {
+		ch, err := tchannel.NewChannel(svc, opts)
+		if err != nil {
+			panic(err)
+		}
+		w.chans = append(w.chans, ch)
+		if listen {
+			ln, err := net.Listen("tcp", "127.0.0.1:0")
+			if err != nil {
+				panic(err)
+			}
+			ch.Serve(&c11Listener{Listener: ln, socks: w.socks, role: role})
+		}
+		return ch
+	}
+	w.server = mk("svc", nil, true, "server")
+	w.registerHandlers(w.server)
+	w.target = w.server.PeerInfo().HostPort
+	if relayTimeout > 0 {
+		rh := relaytest.NewStubRelayHost()
+		w.relay = mk("relay", &tchannel.ChannelOptions{RelayHost: rh, RelayMaxTimeout: relayTimeout, Dialer: w.socks.dialer("relay-out")}, true, "relay-in")
+		rh.Add("svc", w.server.PeerInfo().HostPort)
+		w.target = w.relay.PeerInfo().HostPort
+	}
+	w.client = mk("client", &tchannel.ChannelOptions{Dialer: w.socks.dialer("client")}, false, "")
+	return w
+}
+
+// Forced schedules (schedule points of the library, harness/sched.go) for the rare paths the
+// property names: an error between registration and dispatch (the connection starts closing
+// after the exchange was registered, inbound and outbound), and a relay timeout racing the
+// completion of the call.  A schedule the implementation does not follow is infeasible, not a failure.
+func c11Forced(kind int, sites *c11Sites, o *Out) *c11World {
+	names := []string{"inbound-close-between-registration-and-dispatch", "outbound-close-between-registration-and-dispatch", "relay-timeout-racing-completion"}
+	relayTimeout := time.Duration(0)
+	if kind == 2 {
+		relayTimeout = 100 * time.Millisecond
+	}
+	w := c11BasicWorld("forced-"+names[kind], relayTimeout, sites)
+	w.call("echo", 500*time.Millisecond, 10, 0, w.target) // establishes the connections
+	c11WaitTimeout(&w.wg, 2*time.Second)
+	w.sampleConns()
+	sched := NewSched()
+	defer sched.Close()
+	point := []string{"inbound.afterNewExchange", "outbound.afterNewExchange", "relayTimer.OnTimer"}[kind]
+	sched.ParkAt(point)
+	method := "echo"
+	if kind == 2 {
+		method = "slow" // answers after 150 ms, the relay times the call out after 100 ms
+	}
+	w.call(method, 400*time.Millisecond, 10, 0, w.target)
+	feasible := sched.WaitArrived(point, 1, 2*time.Second)
+	if feasible {
+		switch kind {
+		case 0, 1:
+			ch := w.server
+			if kind == 1 {
+				ch = w.client
+			}
+			for _, c := range tchannel.VerifC11Conns(ch) {
+				go c.Close()
+			}
+			deadline := time.Now().Add(2 * time.Second)
+			for time.Now().Before(deadline) {
+				all := true
+				for _, c := range tchannel.VerifC11Conns(ch) {
+					if tchannel.VerifC11Info(ch, c).State == 1 {
+						all = false
+					}
+				}
+				if all {
+					break
+				}
+				time.Sleep(time.Millisecond)
+			}
+		case 2:
+			time.Sleep(120 * time.Millisecond) // the response passes through while the timer callback is starting
+			w.tombs = true
+		}
+	}
+	sched.ReleaseAll()
+	o.Hist(fmt.Sprintf("quiesce forced %s feasible=%v", names[kind], feasible))
+	w.ops = []string{"forced-schedule:" + names[kind], fmt.Sprintf("feasible=%v", feasible)}
+	w.lastOp = time.Now()
+	return w
+}
+
 // splits a leading [key] tag off a message
 func c11Untag(m string) (tag, rest string) {
 	if strings.HasPrefix(m, "[") {
@@ -902,11 +999,20 @@ func engineQuiesce(rng *rand.Rand, n int, tier string, o *Out) {
 	c11RelayDrain(rng, 2*n, o)
 	c11Teardown(rng, n, o)
 
+	// every history draws from its own generator, seeded up front: what one history does with its
+	// random numbers (which depends on timing) does not shift the others
+	ndef := 2 + n/20
+	seeds := make([]int64, ndef+n)
+	for i := range seeds {
+		seeds[i] = rng.Int63()
+	}
+	worldRng := func(i int) *rand.Rand { return rand.New(rand.NewSource(seeds[i])) }
+
 	// histories whose relays hold tombstones: run first, checked after the tombstone period
 	groupBaseline := c11Baseline()
 	var deferred []*c11World
-	ndef := 2 + n/20
 	for i := 0; i < ndef; i++ {
+		rng := worldRng(i)
 		w := c11NewWorld(rng, fmt.Sprintf("d%d", i), true, sites)
 		// a blackholed call through the relay always times out there and leaves tombstones
 		w.call("hole", 100*time.Millisecond, 10, 0, w.target)
@@ -933,7 +1039,23 @@ func engineQuiesce(rng *rand.Rand, n int, tier string, o *Out) {
 		o.Oracle("quiesce", w.name, true, w.name, verdict)
 	}
 
+	for kind := 0; kind < 3; kind++ {
+		w := c11Forced(kind, sites, o)
+		if kind == 2 {
+			deferred = append(deferred, w) // judged after the tombstone period
+			continue
+		}
+		returned := c11WaitTimeout(&w.wg, 10*time.Second)
+		left := c11Poll(2*time.Second, func() string { return w.leftovers(false) })
+		if !returned {
+			left = "calls have not returned 10 s after they were started; " + left
+		}
+		verdict := c11Verdict("with all calls completed, failed or timed out: ", left, w.closeAndCheck(), w.ops)
+		o.Oracle("quiesce", w.name, true, w.name, verdict)
+	}
+
 	for c := 0; c < n; c++ {
+		rng := worldRng(ndef + c)
 		w := c11NewWorld(rng, fmt.Sprintf("q%d", c), rng.Intn(3) == 0, sites)
 		w.runOps(rng, 3+rng.Intn(8))
 		returned := c11WaitTimeout(&w.wg, 10*time.Second)
